@@ -273,7 +273,7 @@ func init() {
 	mc.Register(&mc.ScenarioDef{Scn: qz, Monitors: []mc.Monitor{monC02()}})
 	registerCheck(&CheckDef{Prop: "C02", Level: "model_checking", Technique: tE1,
 		Quick:       []Run{{Scenario: "qmax-leaf", Depth: 6, MapModes: []int{1}}, {Scenario: "qmax-parent", Depth: 6, MapModes: []int{1}}, {Scenario: "qmax-dynamic", Depth: 6, MapModes: []int{1}}, {Scenario: "gang-sparse-qmax", Depth: 6, MapModes: []int{1}}, {Scenario: "qmax-reload-zero", Depth: 6, MapModes: []int{1}}, {Scenario: "qmax-reqnode", Depth: 6, MapModes: []int{1}}},
-		Thorough:    []Run{{Scenario: "qmax-reqnode", Depth: 9, MapModes: []int{1, 2}}, {Scenario: "qmax-reload-zero", Depth: 8, MapModes: []int{1}}, {Scenario: "gang-sparse-qmax", Depth: 9, MapModes: []int{1}}, {Scenario: "qmax-leaf", Depth: 8, MapModes: []int{1, 2}}, {Scenario: "qmax-parent", Depth: 8, MapModes: []int{1, 2}}, {Scenario: "qmax-dynamic", Depth: 8, MapModes: []int{1, 2}}},
+		Thorough:    []Run{{Scenario: "qmax-reqnode", Depth: 6, MapModes: []int{1}}, {Scenario: "qmax-reload-zero", Depth: 8, MapModes: []int{1}}, {Scenario: "gang-sparse-qmax", Depth: 9, MapModes: []int{1}}, {Scenario: "qmax-leaf", Depth: 8, MapModes: []int{1, 2}}, {Scenario: "qmax-parent", Depth: 8, MapModes: []int{1, 2}}, {Scenario: "qmax-dynamic", Depth: 8, MapModes: []int{1, 2}}},
 		QuickBudget: 150 * time.Second, ThoroughBudget: 12 * time.Minute,
 		// the moment of the decision under concurrency: scheduling cycle || allocation placed by the RM in the same leaf
 		Also: c14Part("C02", "c02ilv", "step-C02-", func(n string) bool {
